@@ -213,10 +213,16 @@ func (s *Server) aofshrink() {
 			}()
 		}
 		if len(aofbuf) > 0 {
+			if err := verifFault(s, "shrink.write"); err != nil {
+				return err
+			}
 			if _, err := f.Write(aofbuf); err != nil {
 				return err
 			}
 			aofbuf = aofbuf[:0]
+		}
+		if err := verifFault(s, "shrink.sync"); err != nil {
+			return err
 		}
 		if err := f.Sync(); err != nil {
 			return err
@@ -258,7 +264,13 @@ func (s *Server) aofshrink() {
 					aofbuf = append(aofbuf, '\r', '\n')
 				}
 			}
+			if err := verifFault(s, "shrink.swap.write"); err != nil {
+				return err
+			}
 			if _, err := f.Write(aofbuf); err != nil {
+				return err
+			}
+			if err := verifFault(s, "shrink.swap.sync"); err != nil {
 				return err
 			}
 			if err := f.Sync(); err != nil {
